@@ -1922,6 +1922,8 @@ class ppc_sc(ppc_mn):
 
     def parse_args(self, args):
         self.offs = 0
+        if args:
+            self.offs = str2imm(args.pop())
 
     def __str__(self):
         name = self.getname()
